@@ -436,6 +436,22 @@ func finishScalar(t *rapid.T, c *ScalarCase) {
 	c.T = maybeNamedDeep(t, c.T)
 	c.ViaPtr = rapid.IntRange(0, 5).Draw(t, "viaPtr") == 0
 	c.LateRule = rapid.IntRange(0, 7).Draw(t, "lateRule") == 0
+	if c.Carrier == "url" || c.Carrier == "urlenc" {
+		genAgain(t, c)
+	}
+}
+
+// genAgain: now and then our URL parameter occurs more than once.
+func genAgain(t *rapid.T, c *ScalarCase) {
+	if c.Missing || c.T.K != "string" || c.T.Name != "" || strings.Contains(strings.Join(c.Rules, ","), "either") || strings.Contains(strings.Join(c.Rules, ","), "botheq") {
+		return
+	}
+	if rapid.IntRange(0, 4).Draw(t, "again") != 2 {
+		return
+	}
+	for i := rapid.IntRange(1, 2).Draw(t, "againN"); i > 0; i-- {
+		c.Again = append(c.Again, rapid.SampledFrom([]string{"", "zz", "12", "ok"}).Draw(t, "againVal"))
+	}
 }
 
 func (g *structGen) scalarField(name string) (desc.F, desc.V) {
